@@ -633,7 +633,8 @@ func (t *Typechecker) VisitGrouping(expr *ast.Grouping) ast.VisitResult {
 func (t *Typechecker) VisitFuncCall(callExpr *ast.FuncCall) ast.VisitResult {
 	decl := callExpr.Func
 
-	for k, expr := range callExpr.Args {
+	for _, k := range ast.SortedArgNames(callExpr.Args) {
+		expr := callExpr.Args[k]
 		argType := t.Evaluate(expr)
 
 		var paramType ddptypes.ParameterType
@@ -669,7 +670,8 @@ func (t *Typechecker) VisitFuncCall(callExpr *ast.FuncCall) ast.VisitResult {
 }
 
 func (t *Typechecker) VisitStructLiteral(expr *ast.StructLiteral) ast.VisitResult {
-	for argName, arg := range expr.Args {
+	for _, argName := range ast.SortedArgNames(expr.Args) {
+		arg := expr.Args[argName]
 		argType := t.Evaluate(arg)
 
 		var paramType ddptypes.Type
